@@ -296,18 +296,18 @@ def run():
     ck = Check("C12", level="partial")
     ginfo = gen_sites.generate()
     pr = ck.prove()
-    model_ok = "error" not in ginfo
+    model_ok = True     # Model/*.vo do not depend on Gen/: the models stay executable when the translator fails closed
     rng = ck.rng
     findings = load_findings("C12")
     classify = make_classifier(findings)
-    if model_ok:
+    if "error" not in ginfo:
         ck.coverage["site_totals"] = ginfo["total"]
         ck.coverage["library_files"] = len(ginfo["files"])
     broken = not pr["ok"]
     boost = 3 if broken else 1          # search mode: the obligations broke, look harder
 
     # 1. modelled arithmetic vs implementation (Tie B) + SQLite backstop
-    range_correspondence(ck, model_ok and pr["ok"] or model_ok)
+    range_correspondence(ck, model_ok)
     json_take_correspondence(ck, model_ok)
 
     # 2. probe streams
@@ -350,9 +350,9 @@ def run():
                     cases.append({"entry": e, "src": s, "stack_mb": st, "family": "nest:%s:%d" % (fam, d), "prog": None,
                                   **({"target": "sql.generic"} if e == "compile" else {})})
         # beyond the 8 MB threshold (finding F8), for the families that are cheap on the 64 MB stack
-        if not ck.thorough and fam in ("paren", "negparen", "notparen", "binop-left", "case", "tuple", "array", "call", "coalesce"):
+        if not ck.thorough and fam in ("negparen", "notparen", "case", "call"):
             for st in (64, 8):
-                cases.append({"entry": "compile", "src": mk(1500), "stack_mb": st, "family": "nest:%s:%d" % (fam, 1500), "prog": None, "target": "sql.generic"})
+                cases.append({"entry": "compile", "src": mk(1400), "stack_mb": st, "family": "nest:%s:%d" % (fam, 1400), "prog": None, "target": "sql.generic"})
         # the formatter is exponential in the nesting depth (finding H2): shallow depths only, one deep case
         fd = [8, 18] if not ck.thorough else [8, 18, 26]
         if fam in ("pipe-in-paren", "case"):
@@ -392,7 +392,7 @@ def run():
             cases.append({"entry": e, "src": j, "stack_mb": 64, "family": fam, "prog": None})
 
     reqs = [{k: v for k, v in c.items() if k in ("entry", "src", "stack_mb", "target")} for c in cases]
-    cap_ms = ck.n(8000, 30000)
+    cap_ms = ck.n(15000, 40000)
     answers = probe(reqs, cap_ms=cap_ms)
     slow = []
     for c, a in zip(cases, answers):
